@@ -1,4 +1,5 @@
-/* Function contracts for source/cbor.c (property C10; the decoder contracts are also the C04 shape for CBOR).
+/* Function contracts for source/cbor.c and the libcbor leaf encoders it uses (property C10; the decoder contracts
+ * are also the C04 shape for CBOR).
  *
  * INCLUDE ORDER: struct aws_cbor_encoder / aws_cbor_decoder are private to source/cbor.c, so this header is included
  * AFTER `#include "source/cbor.c"` (a contract on a re-declaration that follows the definition is picked up as well).
@@ -6,9 +7,14 @@
  * The specification side is written from RFC 8949 section 3 only (it never looks at libcbor):
  *   head  = initial byte (major type << 5 | additional information) followed by the argument in network byte order
  *           in 0/1/2/4/8 bytes (additional information <24 / 24 / 25 / 26 / 27);
- *   CBOR_HEAD_*  : the SHORTEST head for (major, argument)  -> postcondition of every encoder function
- *   CBOR_IN_*    : what an independent reader sees in a byte string -> postcondition of the decoder
- * The round trip is the composition of the two (units/C10: lemma_* units) plus direct runs through the real code.
+ *   CBOR_HEAD_*  : the SHORTEST head for (major, argument)            -> postcondition of every encoder function
+ *   CBOR_IN_*    : what an independent reader sees in a byte string   -> postcondition of the decoder
+ * The round trip is the composition of the two (units/C10: lemma_* units) plus direct runs through the real code
+ * (rt_* units).
+ *
+ * Content is stated for ONE arbitrary byte index g_j (ghost witness, DESIGN 4.3): reading nine bytes at a symbolic
+ * offset of an unbounded object in one clause is out of reach for the SAT back end (probed: no answer in 20 min),
+ * one witness byte takes a second.
  */
 #ifndef VERIF_CONTRACTS_CBOR_H
 #define VERIF_CONTRACTS_CBOR_H
@@ -20,9 +26,10 @@
 /* 1 / 2 / 3 / 5 / 9 bytes; written without ?: because assigns-clause conditions must not contain ternaries */
 #define CBOR_HEAD_LEN(v)                                                                                               \
     ((size_t)1 + (size_t)((v) >= 24) + (size_t)((v) > 0xFFu) + 2 * (size_t)((v) > 0xFFFFu) + 4 * (size_t)((v) > 0xFFFFFFFFull))
-/* j-th byte (0-based) of the shortest head of (major, v); meaningful for j < CBOR_HEAD_LEN(v) */
-#define CBOR_HEAD_BYTE(major, v, j)                                                                                    \
-    ((j) == 0 ? (uint8_t)(((major) << 5) | CBOR_AI(v))                                                                 \
+/* j-th byte (0-based) of the shortest head whose initial byte is b0base | additional information (b0base = major << 5);
+ * meaningful for j < CBOR_HEAD_LEN(v) */
+#define CBOR_HEAD_BYTE(b0base, v, j)                                                                                   \
+    ((j) == 0 ? (uint8_t)((b0base) + CBOR_AI(v))                                                                       \
               : (uint8_t)((uint64_t)(v) >> (8 * (CBOR_HEAD_LEN(v) - 1 - (j)))))
 /* j-th byte of a head with a fixed-width argument of w bytes (floats): initial byte b0, then `bits` big-endian */
 #define CBOR_FIXED_BYTE(b0, w, bits, j) ((j) == 0 ? (uint8_t)(b0) : (uint8_t)((uint64_t)(bits) >> (8 * ((w) - (j)))))
@@ -32,6 +39,43 @@
 #define BITS_F32(u) (((union { float f_; uint32_t u_; }){.u_ = (u)}).f_)
 #define BITS_F64(u) (((union { double d_; uint64_t u_; }){.u_ = (u)}).d_)
 
+#define CBOR_MT_UINT 0x00
+#define CBOR_MT_NEGINT 0x20
+#define CBOR_MT_BYTES 0x40
+#define CBOR_MT_TEXT 0x60
+#define CBOR_MT_ARRAY 0x80
+#define CBOR_MT_MAP 0xA0
+#define CBOR_MT_TAG 0xC0
+#define CBOR_MT_7 0xE0
+
+#define C10_RESET() do { GHOST_RESET(); } while (0)
+
+/* ------------------------------------------------------------------ libcbor leaf encoders (internal/encoders.c, encoding.c)
+ * Each writes a head into [buffer, buffer + buffer_size) iff it fits and returns the number of bytes, 0 otherwise
+ * (then nothing is written).  Enforced in the libcbor_* units, replaced in the aws_cbor_encoder_* units. */
+#define LEAF_CONTRACT(N, BYTE_AT_GJ)                                                                                   \
+    __CPROVER_requires(__CPROVER_is_fresh(buffer, buffer_size))                                                        \
+    __CPROVER_assigns(buffer_size >= (N) : __CPROVER_object_upto(buffer, (N)))                                         \
+    __CPROVER_ensures(RET == (buffer_size >= (N) ? (N) : 0))                                                           \
+    __CPROVER_ensures(g_on && RET != 0 && g_j < (N) ==> buffer[g_j] == (BYTE_AT_GJ))
+
+size_t _cbor_encode_uint(uint64_t value, unsigned char *buffer, size_t buffer_size, uint8_t offset)
+LEAF_CONTRACT(CBOR_HEAD_LEN(value), CBOR_HEAD_BYTE(offset, value, g_j))
+;
+size_t _cbor_encode_uint8(uint8_t value, unsigned char *buffer, size_t buffer_size, uint8_t offset)
+LEAF_CONTRACT(CBOR_HEAD_LEN(value), CBOR_HEAD_BYTE(offset, value, g_j))
+;
+/* fixed widths (used for floats): never shortened */
+size_t _cbor_encode_uint32(uint32_t value, unsigned char *buffer, size_t buffer_size, uint8_t offset)
+LEAF_CONTRACT((size_t)5, CBOR_FIXED_BYTE(0x1A + offset, 4, value, g_j))
+;
+size_t _cbor_encode_uint64(uint64_t value, unsigned char *buffer, size_t buffer_size, uint8_t offset)
+LEAF_CONTRACT((size_t)9, CBOR_FIXED_BYTE(0x1B + offset, 8, value, g_j))
+;
+size_t _cbor_encode_byte(uint8_t value, unsigned char *buffer, size_t buffer_size)
+LEAF_CONTRACT((size_t)1, value)
+;
+
 /* ------------------------------------------------------------------ encoder */
 
 #define ENC_OK(e)                                                                                                      \
@@ -40,33 +84,135 @@
 #define EB(e) ((e)->encoded_buf)
 
 /* Frame and shape shared by every aws_cbor_encoder_write_*: appends exactly N bytes at the old length.
- *  - only len/capacity/buffer of the encoder and the N bytes behind the old length (when they fit in place) may change;
- *    the old storage may be given back to the allocator (growth);
+ * RES is the room the function asks aws_byte_buf_reserve_smart_relative for (9 for every head, 5 for a single, 1 for the
+ * one-byte items, 9 + length for strings): the storage is re-allocated exactly when capacity - len < RES.
+ *  - only the encoder's buffer descriptor may change, plus - when nothing is re-allocated - the N bytes behind the old
+ *    length; when it is re-allocated the old storage goes back to the allocator;
+ *  - len grows by exactly N, capacity never shrinks, the allocator fields stay, the storage stays valid
+ *    (same block and capacity, or a fresh block of `capacity` bytes);
  *  - every byte written before the call is still there (witness g_k/g_old);
- *  - no abort: the unit stubs aws_fatal_assert with assert(false). */
-#define ENC_APPEND_CONTRACT(N)                                                                                         \
+ *  - no abort: the unit stubs aws_fatal_assert with assert(false).
+ * N and RES must be free of ?: where they occur in assigns/frees clauses (CBMC rejects ternaries there). */
+#define ENC_ROOM(e) ((e)->encoded_buf.capacity - (e)->encoded_buf.len)
+#define ENC_ROOM_OLD(e) (OLD((e)->encoded_buf.capacity) - OLD((e)->encoded_buf.len))
+#define ENC_APPEND_CONTRACT_F(N, RES, INPLACE)                                                                         \
     __CPROVER_requires(ENC_OK(encoder))                                                                                \
-    __CPROVER_requires(g_on ==> (g_k < EB(encoder).capacity ==> g_old == EB(encoder).buffer[g_k]))                     \
-    __CPROVER_assigns(EB(encoder).len, EB(encoder).capacity, EB(encoder).buffer)                                       \
-    __CPROVER_assigns(EB(encoder).capacity - EB(encoder).len >= (N) && (N) > 0 : __CPROVER_object_upto(EB(encoder).buffer + EB(encoder).len, (N))) \
-    __CPROVER_frees(EB(encoder).buffer)                                                                                \
-    __CPROVER_ensures(EB(encoder).len == OLD(EB(encoder).len) + (N))                                                   \
+    __CPROVER_requires(g_on ==> g_k < EB(encoder).len && g_old == EB(encoder).buffer[g_k])                             \
+    __CPROVER_assigns(EB(encoder))                                                                                     \
+    INPLACE                                                                                                            \
+    __CPROVER_frees(ENC_ROOM(encoder) < (RES) : EB(encoder).buffer)                                                    \
+    __CPROVER_ensures(EB(encoder).len == OLD(EB(encoder).len) + (N) && EB(encoder).allocator == OLD(EB(encoder).allocator)) \
     __CPROVER_ensures(EB(encoder).len <= EB(encoder).capacity && EB(encoder).capacity >= OLD(EB(encoder).capacity))    \
-    __CPROVER_ensures(EB(encoder).capacity == OLD(EB(encoder).capacity) ? PEQ(EB(encoder).buffer, OLD(EB(encoder).buffer)) \
-                                                                        : __CPROVER_is_fresh(EB(encoder).buffer, EB(encoder).capacity)) \
-    __CPROVER_ensures(g_on && g_k < OLD(EB(encoder).len) ==> EB(encoder).buffer[g_k] == g_old)
+    __CPROVER_ensures(ENC_ROOM_OLD(encoder) >= (RES)                                                                   \
+                          ? EB(encoder).capacity == OLD(EB(encoder).capacity) && PEQ(EB(encoder).buffer, OLD(EB(encoder).buffer)) \
+                          : __CPROVER_is_fresh(EB(encoder).buffer, EB(encoder).capacity))                              \
+    __CPROVER_ensures(g_on ==> EB(encoder).buffer[g_k] == g_old)
+#define ENC_INPLACE(N, RES)                                                                                            \
+    __CPROVER_assigns(ENC_ROOM(encoder) >= (RES) && (N) > 0 : __CPROVER_object_upto(EB(encoder).buffer + EB(encoder).len, (N)))
+#define ENC_APPEND_CONTRACT(N, RES) ENC_APPEND_CONTRACT_F(N, RES, ENC_INPLACE(N, RES))
 
-#define ENS_HEAD_AT(e, major, v, j)                                                                                    \
-    ((j) < CBOR_HEAD_LEN(v) ==> EB(e).buffer[OLD(EB(e).len) + (j)] == CBOR_HEAD_BYTE(major, v, j))
-/* all (at most 9) bytes of the head, spelled out: the decoder needs them simultaneously */
-#define ENS_HEAD(e, major, v)                                                                                          \
-    __CPROVER_ensures(ENS_HEAD_AT(e, major, v, 0) && ENS_HEAD_AT(e, major, v, 1) && ENS_HEAD_AT(e, major, v, 2) &&     \
-                      ENS_HEAD_AT(e, major, v, 3) && ENS_HEAD_AT(e, major, v, 4) && ENS_HEAD_AT(e, major, v, 5) &&     \
-                      ENS_HEAD_AT(e, major, v, 6) && ENS_HEAD_AT(e, major, v, 7) && ENS_HEAD_AT(e, major, v, 8))
+/* the byte at index g_j of the appended region */
+#define ENC_NEW(e) ((e)->encoded_buf.buffer[OLD((e)->encoded_buf.len) + g_j])
+#define ENS_HEAD(b0base, v)                                                                                            \
+    __CPROVER_ensures(g_on && g_j < CBOR_HEAD_LEN(v) ==> ENC_NEW(encoder) == CBOR_HEAD_BYTE(b0base, v, g_j))
 
 void aws_cbor_encoder_write_uint(struct aws_cbor_encoder *encoder, uint64_t value)
-ENC_APPEND_CONTRACT(CBOR_HEAD_LEN(value))
-ENS_HEAD(encoder, 0, value)
+ENC_APPEND_CONTRACT(CBOR_HEAD_LEN(value), 9)
+ENS_HEAD(CBOR_MT_UINT, value)
+;
+void aws_cbor_encoder_write_negint(struct aws_cbor_encoder *encoder, uint64_t value)
+ENC_APPEND_CONTRACT(CBOR_HEAD_LEN(value), 9)
+ENS_HEAD(CBOR_MT_NEGINT, value)
+;
+void aws_cbor_encoder_write_tag(struct aws_cbor_encoder *encoder, uint64_t tag_number)
+ENC_APPEND_CONTRACT(CBOR_HEAD_LEN(tag_number), 9)
+ENS_HEAD(CBOR_MT_TAG, tag_number)
+;
+void aws_cbor_encoder_write_array_start(struct aws_cbor_encoder *encoder, size_t number_entries)
+ENC_APPEND_CONTRACT(CBOR_HEAD_LEN(number_entries), 9)
+ENS_HEAD(CBOR_MT_ARRAY, number_entries)
+;
+void aws_cbor_encoder_write_map_start(struct aws_cbor_encoder *encoder, size_t number_entries)
+ENC_APPEND_CONTRACT(CBOR_HEAD_LEN(number_entries), 9)
+ENS_HEAD(CBOR_MT_MAP, number_entries)
+;
+
+/* one-byte items */
+#define ENC_ONE_BYTE(b)                                                                                                \
+    ENC_APPEND_CONTRACT((size_t)1, 1)                                                                                  \
+    __CPROVER_ensures(g_on && g_j < 1 ==> ENC_NEW(encoder) == (uint8_t)(b))
+void aws_cbor_encoder_write_bool(struct aws_cbor_encoder *encoder, bool value)
+ENC_ONE_BYTE(value ? 0xF5 : 0xF4)
+;
+void aws_cbor_encoder_write_null(struct aws_cbor_encoder *encoder)
+ENC_ONE_BYTE(0xF6)
+;
+void aws_cbor_encoder_write_undefined(struct aws_cbor_encoder *encoder)
+ENC_ONE_BYTE(0xF7)
+;
+void aws_cbor_encoder_write_indef_bytes_start(struct aws_cbor_encoder *encoder)
+ENC_ONE_BYTE(0x5F)
+;
+void aws_cbor_encoder_write_indef_text_start(struct aws_cbor_encoder *encoder)
+ENC_ONE_BYTE(0x7F)
+;
+void aws_cbor_encoder_write_indef_array_start(struct aws_cbor_encoder *encoder)
+ENC_ONE_BYTE(0x9F)
+;
+void aws_cbor_encoder_write_indef_map_start(struct aws_cbor_encoder *encoder)
+ENC_ONE_BYTE(0xBF)
+;
+void aws_cbor_encoder_write_break(struct aws_cbor_encoder *encoder)
+ENC_ONE_BYTE(0xFF)
+;
+
+/* floats.  A single is 0xFA + the IEEE-754 binary32 bits, a double 0xFB + the binary64 bits, big-endian. */
+void aws_cbor_encoder_write_single_float(struct aws_cbor_encoder *encoder, float value)
+ENC_APPEND_CONTRACT((size_t)5, 5)
+__CPROVER_ensures(g_on && g_j < 5 ==> ENC_NEW(encoder) == CBOR_FIXED_BYTE(0xFA, 4, F32_BITS(value), g_j))
+;
+
+/* aws_cbor_encoder_write_float(double): "stored in the smallest form that loses nothing", never as a half:
+ *   INT    finite, -2^63 <= v < 2^63 and v has no fractional part  -> integer head (major 0 for v >= 0, major 1 with
+ *          argument -1 - v for v < 0); -0.0 is written as the integer 0
+ *   SINGLE otherwise, if not finite (NaN, +-inf) or (double)(float)v == v -> single
+ *   DOUBLE otherwise
+ * 2^63 itself is a SINGLE by this specification ((float)2^63 is exact); the source converts it to int64_t first,
+ * which is undefined behaviour in C (DESIGN section 6, F5).
+ * (&& short-circuits, so the spec itself converts to int64_t only inside the int64 range.) */
+#define TWO63 9223372036854775808.0
+#define FL_IN_I64(v) ((v) >= -TWO63 && (v) < TWO63)
+#define FL_INT(v) (__CPROVER_isfinited(v) && FL_IN_I64(v) && (double)(int64_t)(v) == (v))
+#define FL_I64(v) ((int64_t)(v)) /* only under FL_INT(v) */
+#define FL_SINGLE(v) (!FL_INT(v) && (!__CPROVER_isfinited(v) || (double)(float)(v) == (v)))
+#define FL_DOUBLE(v) (!FL_INT(v) && !FL_SINGLE(v))
+/* argument of the integer head */
+#define FL_INT_ARG(v) (FL_I64(v) < 0 ? (uint64_t)(-1 - FL_I64(v)) : (uint64_t)FL_I64(v))
+#define FL_LEN(v) (FL_INT(v) ? CBOR_HEAD_LEN(FL_INT_ARG(v)) : FL_SINGLE(v) ? (size_t)5 : (size_t)9)
+#define FL_RES(v) ((size_t)9 - 4 * (size_t)FL_SINGLE(v))
+void aws_cbor_encoder_write_float(struct aws_cbor_encoder *encoder, double value)
+ENC_APPEND_CONTRACT_F(FL_LEN(value), FL_RES(value),
+    __CPROVER_assigns(ENC_ROOM(encoder) >= 9 : __CPROVER_object_upto(EB(encoder).buffer + EB(encoder).len, 9))
+    __CPROVER_assigns(ENC_ROOM(encoder) >= 5 && FL_SINGLE(value) : __CPROVER_object_upto(EB(encoder).buffer + EB(encoder).len, 5)))
+__CPROVER_ensures(g_on && FL_INT(value) && g_j < FL_LEN(value) ==>
+                  ENC_NEW(encoder) == CBOR_HEAD_BYTE(FL_I64(value) < 0 ? CBOR_MT_NEGINT : CBOR_MT_UINT, FL_INT_ARG(value), g_j))
+__CPROVER_ensures(g_on && FL_SINGLE(value) && g_j < 5 ==> ENC_NEW(encoder) == CBOR_FIXED_BYTE(0xFA, 4, F32_BITS((float)value), g_j))
+__CPROVER_ensures(g_on && FL_DOUBLE(value) && g_j < 9 ==> ENC_NEW(encoder) == CBOR_FIXED_BYTE(0xFB, 8, F64_BITS(value), g_j))
+;
+
+/* byte / text strings: head with the length, then the bytes themselves.  The same witness index g_j is used once for
+ * the head (g_j < head length) and once for the payload (g_j < from.len). */
+#define ENC_STRING_CONTRACT(b0base)                                                                                    \
+    __CPROVER_requires((from.len == 0 && from.ptr == NULL) || __CPROVER_is_fresh(from.ptr, from.len))                  \
+    ENC_APPEND_CONTRACT(CBOR_HEAD_LEN(from.len) + from.len, 9 + from.len)                                              \
+    ENS_HEAD(b0base, from.len)                                                                                         \
+    __CPROVER_ensures(g_on && g_j < from.len ==>                                                                       \
+                      EB(encoder).buffer[OLD(EB(encoder).len) + CBOR_HEAD_LEN(from.len) + g_j] == from.ptr[g_j])
+void aws_cbor_encoder_write_bytes(struct aws_cbor_encoder *encoder, struct aws_byte_cursor from)
+ENC_STRING_CONTRACT(CBOR_MT_BYTES)
+;
+void aws_cbor_encoder_write_text(struct aws_cbor_encoder *encoder, struct aws_byte_cursor from)
+ENC_STRING_CONTRACT(CBOR_MT_TEXT)
 ;
 
 #endif
